@@ -28,7 +28,7 @@ def bconf(**kw):
     base = dict(Masters=set(MASTERS), Vols=set(VOLS), MaxKey=0, MaxOps=6, Kind="memory",
                 Counts=counts((1, 0), (2, 0)), Steps=MODEL_STEPS,
                 Pre=vf.Raw("{" + ", ".join('<<"%s", %d>>' % p for p in MODEL_PRE) + "}"),
-                SetMaxShape="fixed", CasRetry=True, Split=False, KFm=set(), MaxTicks=2, WithVids=False,
+                SetMaxShape="fixed", CasRetry=True, RefillCas=True, Split=False, KFm=set(), MaxTicks=2, WithVids=False,
                 Fresh={True, False}, GDepth=0)
     base.update(kw)
     return base
@@ -243,6 +243,11 @@ def run(ctx):
                             Counts=counts((1, 0), (2, 0), (0, 1))), "etcd")
     gen("G_etcd_old_in", bconf(Kind="etcd", SetMaxShape="old", GDepth=0, MaxOps=D if th else 4, Pre=pre_lit(MODEL_PRE_IN),
                                Fresh={False}), "etcd", pre=MODEL_PRE_IN)
+    # a refill whose write is not a compare-and-swap: two masters reserve the same batch when one master's
+    # Get and Set fall between the other's Get and Set (replayed with the parked Get of the fake KeysAPI)
+    gen("G_etcd_blind", bconf(Kind="etcd", RefillCas=False, Split=True, GDepth=0, MaxOps=7 if th else 6, Vols={"v1"},
+                              Counts=counts((1, 0), (0, 1)) if th else counts((1, 0)), Pre=pre_lit([]), Fresh={False}),
+        "etcd", pre=[])
     gen("G_snow", bconf(Kind="snowflake", GDepth=g, MaxOps=D - 1, Counts=counts((1, 0), (3, 0))), "snowflake")
     gen("G_vids", bconf(WithVids=True, Vols={"v1"}, Counts=counts((1, 0)), GDepth=4 if th else 3, MaxOps=4 if th else 3), "memory")
     if th:
@@ -307,7 +312,7 @@ def run(ctx):
     ctx.rule = ("executions = (a) TLC-generated schedules of the layer-B model SequencerImpl (one witness per "
                 "(state, last operation) to depth %d for memory / etcd / snowflake / volume ids, plus EVERY bounded "
                 "schedule on which the model itself re-issues a key: old etcd SetMax shape, etcd SetMax without "
-                "CAS retry under Get/CAS interleaving, memory with two masters, snowflake with counts > 1) replayed "
+                "CAS retry under Get/CAS interleaving, etcd batch refill written without compare-and-swap, memory with two masters, snowflake with counts > 1) replayed "
                 "on the real sequencer objects; (b) seeded random sequential histories of 8-30 operations per "
                 "sequencer kind with counts around the etcd step (499/500/501/1000), pre-existing keys, raw SetMax "
                 "values, leader changes with and without a fresh object; (c) goroutine storms (2-4 goroutines x 2-5 "
